@@ -260,7 +260,7 @@ func init() {
 		ID:    "C07",
 		Level: "exploration",
 		Rule: "cases are template directories written to disk: 1..2 component files (0..2 arguments used in text and in conditions, 0..3 slot placeholders incl. the default slot, a surrounding variable printed inside) and 1..3 pages with 1..4 uses each - the same component several times with different arguments and slot bodies, uses without slots after uses with slots, uses inside @if, inside @each with per-pass arguments, inside an insert block of a layout page, '~name' and full spelling, argument values that name surrounding variables which are also keys of the same call; every use site has unique argument values and slot sentinels and every argument is wrapped in a tracer probe. " +
-			"Oracles: output vs the model, tracer log (each argument evaluated once per evaluation of its use site, with the values of the place of use); the verif hook VerifShared() (AST nodes reachable from two use sites) is recorded as evidence. Fault trees: undeclared slot, slot passed twice (named and default), missing component file - reported by NewTemplate, naming the component. slot bodies may assign what the component prints after the placeholder; text and comments between slots; dotted component names, nested object arguments, reserve inside a layout loop; round 8: uses inside slot bodies, up to 12 uses per page, component files beginning with BOM/CRLF; round 9: files to 5 MiB; scale: 65 slots, 17 arguments; concurrent replay of page renders; rounds 10-11: data-less sequences, arguments from one array, operators/loops/quotes around uses, fault positions; rounds 12-13: slot names with blanks, leading-zero numbers as arguments; round 14: shuffled argument next to the array itself; round 15: object literals of many pairs as arguments; distinct_nontrivial = distinct trees (by sources)",
+			"Oracles: output vs the model, tracer log (each argument evaluated once per evaluation of its use site, with the values of the place of use); the verif hook VerifShared() (AST nodes reachable from two use sites) is recorded as evidence. Fault trees: undeclared slot, slot passed twice (named and default), missing component file - reported by NewTemplate, naming the component. slot bodies may assign what the component prints after the placeholder; text and comments between slots; dotted component names, nested object arguments, reserve inside a layout loop; round 8: uses inside slot bodies, up to 12 uses per page, component files beginning with BOM/CRLF; round 9: files to 5 MiB; scale: 65 slots, 17 arguments; concurrent replay of page renders; rounds 10-11: data-less sequences, arguments from one array, operators/loops/quotes around uses, fault positions; rounds 12-13: slot names with blanks, leading-zero numbers as arguments; round 14: shuffled argument next to the array itself; round 15: object literals of many pairs as arguments; round 17: prefix operators on page values in component files and arguments; distinct_nontrivial = distinct trees (by sources)",
 		Assumptions: []string{
 			"slot placeholders sit at the top level of a component file (nested placeholders are outside what the statement describes); slot bodies may be empty",
 			"argument names that collide in type with a visible variable are an error (C04) and are generated with matching types here",
